@@ -42,7 +42,7 @@ const HOSTS_RE: &[&str] = &["/b.*/.a.io", "/[bc]+/.a.io"];
 const HOSTS_MID: &[&str] = &["w./x.*/.io", "w.xy.io", "v./x.*/.io", "v./xy+/.io"];
 const HOSTS_BAD: &[&str] = &["a*.io", "/(/.a.io", "/b.a.io", "a./b", "/b/x.io", "b*"];
 /// hostnames that pass `DomainRule::from_str` (a regex is compiled from them) but that the trie
-/// cannot store: `remove` and `lookup_mut` answer "not found", a tree `add` panics (finding)
+/// cannot store: `remove` and `lookup_mut` answer "not found", a tree `add` is refused (it used to panic: F1493)
 const HOSTS_UNSTORABLE: &[&str] = &["a/", "x/b/", "w./x/y"];
 const PROBE_HOSTS: &[&str] = &[
     "a.io", "b.a.io", "c.a.io", "bc.a.io", "d.a.io", "x.b.a.io", "io", "localhost", "w.xy.io", "v.xy.io",
@@ -761,6 +761,38 @@ fn same_key(a: &Front, b: &Front) -> bool {
     a.pos == b.pos && a.host == b.host && a.kind == b.kind && a.path == b.path && a.method == b.method
 }
 
+/// is the hostname a key the host trie can store? (own transcription of the key syntax:
+/// labels right to left; a label is literal or a whole `/regex/` segment)
+fn tree_key_storable(host: &str) -> bool {
+    let mut r = host.as_bytes();
+    if r.is_empty() || r == b"." {
+        return false;
+    }
+    loop {
+        if r.is_empty() {
+            return false;
+        }
+        if r[r.len() - 1] == b'/' {
+            let body = &r[..r.len() - 1];
+            match body.iter().rposition(|c| *c == b'/') {
+                None => return false,
+                Some(0) => return true,
+                Some(pos) => {
+                    if body[pos - 1] != b'.' {
+                        return false;
+                    }
+                    r = &r[..pos - 1];
+                }
+            }
+        } else {
+            match r.iter().rposition(|c| *c == b'.') {
+                None => return true,
+                Some(pos) => r = &r[..pos],
+            }
+        }
+    }
+}
+
 fn valid_front(f: &Front) -> bool {
     if f.pos > 2 || f.kind > 2 || !path_ok(f.kind, &f.path) {
         return false;
@@ -1284,12 +1316,12 @@ impl RouterArea {
         let mut plan: Vec<(bool, usize)> = vec![]; // (is_add, front index)
         for i in 0..n {
             if !fronts.is_empty() && rng.chance(1, 30) {
-                // remove a tree frontend whose hostname the trie cannot even store
+                // add or remove a tree frontend whose hostname the trie cannot even store
                 let mut f = gen_front(rng, &hosts, i, false);
                 f.host = rng.pick(HOSTS_UNSTORABLE).to_string();
                 f.pos = 2;
                 fronts.push(f);
-                plan.push((false, fronts.len() - 1));
+                plan.push((rng.chance(1, 2), fronts.len() - 1));
             } else if !fronts.is_empty() && rng.chance(3, 10) {
                 // remove something added earlier (sometimes never added / already removed)
                 let k = rng.below(fronts.len() as u64) as usize;
@@ -1603,7 +1635,7 @@ impl Area for RouterArea {
                 &[("b.a.io", "/a", "GET"), ("bc.a.io", "/", "GET"), ("d.a.io", "/a", "GET")],
             ),
             // a hostname that `DomainRule::from_str` accepts but the trie cannot store: remove is a no-op,
-            // the tree add panics the worker (open finding)
+            // the tree add is refused (it used to panic the worker: F1493, fixed by 13212df)
             witness(
                 &[(false, fs(2, "x/b/", 0, "/", None, "c1")), (true, fs(0, "x/b/", 0, "/", None, "c2")), (true, fs(2, "x/b/", 0, "/", None, "c3"))],
                 &[("a.io", "/", "GET")],
@@ -1780,8 +1812,13 @@ impl RouterArea {
                     };
                     let valid = glue.is_none() && valid_front(&f);
                     let dup = s.iter().any(|g| same_key(&g.f, &f));
+                    // a tree hostname the trie cannot store is refused (fix 13212df; it used to panic)
+                    let refused = valid && f.pos == 2 && !tree_key_storable(&f.host);
+                    let valid = valid && !refused;
                     let expect = if let Some(e) = glue {
                         e
+                    } else if refused {
+                        "err-add"
                     } else if !valid {
                         if f.kind > 2 || !path_ok(f.kind, &f.path) { "err-path" } else { "err-domain" }
                     } else if dup {
